@@ -44,7 +44,7 @@ ASSUMPTIONS = [
     "same-instant ordering between events follows creation order (C01)",
 ]
 EXPECTED_PROBES = ["probe.prepared_event_yielded_as_side_effect", "probe.future_awaited_again_after_resolution",
-                   "probe.same_future_twice_in_one_combinator", "probe.process_hosted_by_once_callback", "probe.forward_of_start_event_as_side_effect", "probe.exception_instance_as_value", "probe.two_phase_job_rearms_its_event_from_a_hook", "probe.cancel_of_already_dispatched_event", "probe.non_native_generator", "probe.future_object_as_value", "probe.shared_leaf_woke_two", "probe.shared_empty_list_form", "probe.pre_resolved_wait", "probe.resolve_twice", "probe.nested_combinator",
+                   "probe.same_future_twice_in_one_combinator", "probe.process_hosted_by_once_callback", "probe.forward_of_start_event_as_side_effect", "probe.exception_instance_as_value", "probe.futures_built_during_an_earlier_run", "probe.two_phase_job_rearms_its_event_from_a_hook", "probe.cancel_of_already_dispatched_event", "probe.non_native_generator", "probe.future_object_as_value", "probe.shared_leaf_woke_two", "probe.shared_empty_list_form", "probe.pre_resolved_wait", "probe.resolve_twice", "probe.nested_combinator",
                    "probe.hook_on_process", "probe.sub_generator", "probe.any_ambiguous_at_build",
                    "probe.sub_ns_delay_truncated"]
 SHRINK_SKIP = ("futures",)
@@ -55,7 +55,25 @@ def gen(rng, tier):
 
 
 def run_engine(sc):
-    w = procprog.EngineWorld(sc)
+    futs = None
+    if sc.get("futs_from_earlier_run"):
+        # the futures are long-lived objects built by a handler of an earlier, completed simulation (a warmed-up entity
+        # holding lazily created latches) and awaited / resolved in the run under test
+        from happysimulator.core.entity import Entity
+        from happysimulator.core.event import Event
+        from happysimulator.core.sim_future import SimFuture
+        futs = []
+
+        class _Warm(Entity):
+            def handle_event(self, event):
+                futs.extend(SimFuture() for _ in range(sc["futures"]))
+                return None
+
+        warm = _Warm("warm-up")
+        aux = Simulation(entities=[warm])
+        aux.schedule(Event(time=Instant(0), event_type="warm", target=warm))
+        aux.run()
+    w = procprog.EngineWorld(sc, futs=futs)
     end = Instant(10**15) if sc.get("loop") == "fast" else None
     sim = Simulation(entities=w.entities(), end_time=end)
     sim.schedule(w.initial_events())
@@ -181,6 +199,7 @@ def run(sc):
     counters["probe.forward_of_start_event_as_side_effect"] = int("'forward'" in repr(sc["procs"]))
     counters["probe.two_phase_job_rearms_its_event_from_a_hook"] = int(any(pl.get("rearm") is not None for pl in sc.get("plain", [])))
     counters["probe.cancel_of_already_dispatched_event"] = int("'cancel_fired'" in repr(sc["procs"]))
+    counters["probe.futures_built_during_an_earlier_run"] = int(bool(sc.get("futs_from_earlier_run")) and sc["futures"] > 0)
     counters["probe.exception_instance_as_value"] = int("'exc'" in repr(sc))
     counters["probe.process_hosted_by_once_callback"] = int(any(p.get("host_once") for p in sc["procs"]))
     counters["probe.same_future_twice_in_one_combinator"] = int(_dup_leaf(sc))
